@@ -353,76 +353,89 @@ func run(r *mc.Run) {
 	if r.Thorough() {
 		shapes = append(shapes, [][]int{{2, 2}, {1}}, [][]int{{2, 2}, {2}}, [][]int{{1}, {1}, {1}}, [][]int{{2}, {1}, {1}}, [][]int{{1, 1}, {1}, {1}})
 	}
-	var cases []cas
-	for _, sh := range shapes {
-		nn := 0
-		for _, racks := range sh {
-			for _, k := range racks {
-				nn += k
+	// lazy generation: each worker walks the same deterministic enumeration and builds only its own cases
+	forEach := func(f func(idx int, mk func() cas)) int {
+		idx := 0
+		for _, sh := range shapes {
+			sh := sh
+			nn := 0
+			for _, racks := range sh {
+				for _, k := range racks {
+					nn += k
+				}
 			}
-		}
-		for _, m := range [][]nodeState{menu, ecMenu} {
-			isEc := len(m) == len(ecMenu)
-			if isEc && nn > r.Pick(2, 4) {
-				continue
-			}
-			if !isEc && r.Quick() && nn >= 4 {
-				m = m[:2] // quick: 4-server shapes with states {full, one free} only
-			}
-			sizes := make([]int, nn)
-			for i := range sizes {
-				sizes[i] = len(m)
-			}
-			mc.Product(sizes, func(ix []int) bool {
-				st := make([]nodeState, nn)
-				for i, v := range ix {
-					st[i] = m[v]
+			for _, m := range [][]nodeState{menu, ecMenu} {
+				m := m
+				isEc := len(m) == len(ecMenu)
+				if isEc && nn > r.Pick(2, 3) {
+					continue
+				}
+				if !isEc && nn >= 4 && (r.Quick() || nn >= 5) {
+					m = m[:2] // larger shapes with states {full, one free} only
+				}
+				sizes := make([]int, nn)
+				for i := range sizes {
+					sizes[i] = len(m)
 				}
 				disks := []string{""}
 				if isEc {
 					disks = []string{"", "ssd"}
 				}
-				for _, disk := range disks {
-					for x := 0; x <= len(sh)-1 && x <= 2; x++ {
-						for y := 0; y <= 1; y++ {
-							for z := 0; z <= 2; z++ {
-								if 1+x+y+z > nn+1 {
-									continue
-								}
-								for perm := 0; perm < 2; perm++ {
-									c0 := cas{Shape: sh, States: st, Rp: fmt.Sprintf("%d%d%d", x, y, z), Disk: disk, Perm: perm}
-									for _, p := range prefsOf(sh, perm) {
-										c := c0
-										c.Pref = p
-										cases = append(cases, c)
+				mc.Product(sizes, func(ix []int) bool {
+					for _, disk := range disks {
+						for x := 0; x <= len(sh)-1 && x <= 2; x++ {
+							for y := 0; y <= 1; y++ {
+								for z := 0; z <= 2; z++ {
+									if 1+x+y+z > nn+1 {
+										continue
+									}
+									for perm := 0; perm < 2; perm++ {
+										for _, pf := range prefsOf(sh, perm) {
+											disk, x, y, z, perm, pf := disk, x, y, z, perm, pf
+											f(idx, func() cas {
+												st := make([]nodeState, nn)
+												for i, v := range ix {
+													st[i] = m[v]
+												}
+												return cas{Shape: sh, States: st, Rp: fmt.Sprintf("%d%d%d", x, y, z), Disk: disk, Perm: perm, Pref: pf}
+											})
+											idx++
+										}
 									}
 								}
 							}
 						}
 					}
-				}
-				return true
-			})
+					return true
+				})
+			}
+		}
+		return idx
+	}
+	if r.ChildPhase() == "" {
+		n := forEach(func(int, func() cas) {})
+		r.Set("cases", n)
+		if os.Getenv("VERIF_COUNT") != "" {
+			fmt.Println("cases:", n)
 		}
 	}
-	r.Set("cases", len(cases))
-	if os.Getenv("VERIF_COUNT") != "" {
-		fmt.Println("cases:", len(cases))
-	}
 	r.Parallel("enum", 16, func(shard, n int) {
-		for i, c := range cases {
-			if i%n != shard {
-				continue
+		expired := false
+		forEach(func(i int, mk func() cas) {
+			if i%n != shard || expired {
+				return
 			}
+			c := mk()
 			if !r.Begin(c) {
-				continue
+				return
 			}
 			if r.Expired() {
 				r.NotExhaustive("wall-clock budget")
-				break
+				expired = true
+				return
 			}
 			oneCase(r, c)
-		}
+		})
 	})
 }
 
